@@ -152,6 +152,20 @@ def cases(ctx):
                             "src": f"*={a:#08x}\nnop\n@={b:#08x}\nzz_r:\nnop\nnop\n*={c:#08x}\nzz_tgt:\ndex\nnop\n{mn} zz_tgt\nnop\n",
                             "spec": {"t": "branch", "high": rom == "high", "p": c + 2, "t_addr": c, "op": op, "skip": 2,
                                      "reject": False}})
+    # under a bus the program declares itself (.map): RAM and distances are those of THAT bus
+    maps = (".map identifier=1 bank_range=0x00,0x5f addr_range=0x8000,0xffff mask=0x8000\n"
+            ".map identifier=2 bank_range=0x60,0x6f addr_range=0,0xffff mask=0x10000 writable=1\n"
+            ".map identifier=3 bank_range=0xc0,0xff addr_range=0,0xffff mask=0x10000\n")
+    for rom in (None, "low", "high"):
+        for mn, op in br:
+            out.append({"kind": "branch:user-map-ram-run", "rom": rom, "spec": {"t": "reject"},
+                        "src": f"{maps}*=0x008000\nnop\n@=0x600000\nzz_l:\ndex\n{mn} zz_l\n"})
+            out.append({"kind": "branch:user-map-ram-target", "rom": rom, "spec": {"t": "reject"},
+                        "src": f"{maps}*=0x008000\n{mn} 0x600010\n"})
+            out.append({"kind": "branch:user-map-far", "rom": rom, "spec": {"t": "reject"},
+                        "src": f"{maps}*=0xc10010\n{mn} 0xc18020\nnop\n"})
+            out.append({"kind": "branch:user-map-near", "rom": rom, "must_assemble": True, "spec": {"t": "none"},
+                        "src": f"{maps}*=0xc18010\nzz_b:\nnop\n{mn} zz_b\n{mn} zz_f\nnop\nzz_f:\nrts\n"})
     # far targets whose distance is small only modulo the bank window / the bank / 64 KiB: out of reach, never wrapped
     for rom in ("low", "high"):
         bank = 0x01 if rom == "low" else 0x41
